@@ -14,7 +14,9 @@ hash of the trace (arguments of every activation and intermediate reads, in exec
 
 Shape descriptor line (also the Lean driver's input): `<caps> <args> <ret> <call>`, e.g. `c0:m,c1:s a0,a1 ret:i64 ntc`.
 A case = descriptor + ` body=<t> seed=<n>` + optional ` name=<recursion name>` ` nest=<name of a nested rec_lambda!>`
-` live2=<name of a second live closure>` ` env=hostile` (name-resolution / hygiene instances, see `hygiene_instances`).
+` live2=<name of a second live closure>` ` env=hostile` (name-resolution / hygiene instances, see `hygiene_instances`),
+` soak=<many|deep|multi>/<exit form>/<n>` (long-running instances, body 4, see `soak_instances`), ` profile=<debug|release>`
+(the cargo profile the instance failed in; default debug).
 
 CLI (replay of one shape outside ./check):
   python3 tools/c20_gen.py --replay 'c0:m,c1:s a0,a1 ret:i64 ntc body=0 seed=1' [--repo /repo] [--keep]
@@ -28,7 +30,8 @@ import sys
 
 TEMPLATES = 4
 MAX_ARGS = 6
-TEMPLATE_NAMES = ["arith-i64", "vec-memo", "mixed-types", "ref-args-effects"]
+TEMPLATE_NAMES = ["arith-i64", "vec-memo", "mixed-types", "ref-args-effects", "exits-i64"]
+SOAK_T = 4          # body template of the long-running instances (not part of the TEMPLATES cross product)
 
 
 # ------------------------------------------------------------------------------------------------
@@ -45,18 +48,25 @@ class Shape:
        hyg   = True for the name-resolution (hygiene) instances: the body gets a prologue using free functions, prelude
                names, a type alias, a module, a const, a static and a tuple struct, and (with a return type, templates
                0 and 3) a recursive call nested inside an argument expression of another recursive call."""
-    __slots__ = ("caps", "nargs", "ret", "tc", "sid", "nm", "nest", "live2", "hyg", "env")
+    __slots__ = ("caps", "nargs", "ret", "tc", "sid", "nm", "nest", "live2", "hyg", "env", "soak")
 
-    def __init__(self, caps, nargs, ret, tc, sid=0, nm=DEFAULT_NAME, nest=None, live2=None, hyg=None, env=None):
+    def __init__(self, caps, nargs, ret, tc, sid=0, nm=DEFAULT_NAME, nest=None, live2=None, hyg=None, env=None, soak=None):
         self.caps, self.nargs, self.ret, self.tc, self.sid = tuple(caps), nargs, ret, tc, sid
         self.nm, self.nest, self.live2 = nm, nest, live2
+        # soak = None, or (kind, exit form, n): a LONG-RUNNING instance (body template SOAK_T, see the section "long-running use")
+        self.soak = tuple(soak) if soak is not None else None
         self.hyg = bool(hyg) if hyg is not None else (nm != DEFAULT_NAME or nest is not None or live2 is not None)
         # env = "hostile": the macro is invoked by its absolute path (`::rlib_lambda::rec_lambda!`) in a scope where the names of
         # the prelude / of std / of the crate's own macros are shadowed by unrelated definitions (HOSTILE_ITEMS); body template 0 only
         self.env = env
 
     def with_sid(self, sid):
-        return Shape(self.caps, self.nargs, self.ret, self.tc, sid, self.nm, self.nest, self.live2, self.hyg, self.env)
+        return Shape(self.caps, self.nargs, self.ret, self.tc, sid, self.nm, self.nest, self.live2, self.hyg, self.env, self.soak)
+
+    def with_n(self, n):
+        """the same long-running instance with another length (shrinking)"""
+        return Shape(self.caps, self.nargs, self.ret, self.tc, self.sid, self.nm, self.nest, self.live2, self.hyg, self.env,
+                     (self.soak[0], self.soak[1], n))
 
     def shared(self):
         return [i for i, m in enumerate(self.caps) if not m]
@@ -65,12 +75,14 @@ class Shape:
         return [i for i, m in enumerate(self.caps) if m]
 
     def ret_ty(self, t):
+        if self.soak is not None:
+            return soak_ret_ty(self)
         return RET_TY[t] if self.ret else None
 
     def descriptor(self, t=0):
         caps = ",".join(f"c{i}:{'m' if m else 's'}" for i, m in enumerate(self.caps)) or "-"
         args = ",".join(f"a{k}" for k in range(self.nargs))
-        ret = ("ret:" + RET_TY[t].replace(" ", "")) if self.ret else "noret"
+        ret = ("ret:" + self.ret_ty(t).replace(" ", "")) if self.ret else "noret"
         return f"{caps} {args} {ret} {'tc' if self.tc else 'ntc'}"
 
     def case(self, t, seed=1):
@@ -83,6 +95,8 @@ class Shape:
             extra += f" live2={self.live2}"
         if self.env is not None:
             extra += f" env={self.env}"
+        if self.soak is not None:
+            extra += " soak=%s/%s/%d" % self.soak
         return f"{self.descriptor(t)} body={t} seed={seed}{extra}"
 
 
@@ -96,8 +110,11 @@ def parse_case(line):
     ret = toks[2] != "noret"
     tc = toks[3] == "tc"
     t, seed = None, 1
-    nm, nest, live2, hyg, env = DEFAULT_NAME, None, None, False, None
+    nm, nest, live2, hyg, env, soak = DEFAULT_NAME, None, None, False, None, None
     for x in toks[4:]:
+        if x.startswith("soak="):
+            kind, form, n = x[5:].split("/")
+            soak = (kind, form, int(n))
         if x.startswith("body="):
             t = int(x[5:])
         if x.startswith("seed="):
@@ -110,7 +127,7 @@ def parse_case(line):
             live2 = x[6:]
         if x.startswith("env="):
             env = x[4:]
-    return Shape(caps, nargs, ret, tc, 0, nm, nest, live2, (False if env is not None else (hyg or None)), env), t, seed
+    return Shape(caps, nargs, ret, tc, 0, nm, nest, live2, (False if env is not None else (hyg or None)), env, soak), t, seed
 
 
 def all_shapes(max_caps):
@@ -562,6 +579,10 @@ def live2_parts(sh, t):
 
 def gen_pair(sh, t, seed=1):
     """Source text of g_<sid>_<t> and e_<sid>_<t>."""
+    if sh.soak is not None:
+        if t != SOAK_T:
+            raise ValueError("a long-running instance has body template %d" % SOAK_T)
+        return gen_soak_pair(sh, seed)
     caps = list(enumerate(sh.caps))
     n = sh.nargs
     rn = sh.nm
@@ -672,6 +693,245 @@ def gen_pair(sh, t, seed=1):
     return "\n".join(x for x in g if x is not None), "\n".join(x for x in e if x is not None)
 
 
+# ------------------------------------------------------------------------------------------------
+# long-running use (body template SOAK_T = "exits-i64")
+# ------------------------------------------------------------------------------------------------
+# Classes (E)/(B) of the fourth/fifth round of seeded changes (C20_m11: a debug-only thread-local depth counter that is not
+# released on an early `return` / `?`): a closure whose body LEAVES EARLY in every syntactic way Rust has, used for a long time
+# on one thread. One instance = one fresh thread with a big stack (so that an instance fails or passes on its own) running
+#   many : one closure called n times in a row (recursion depth <= 4), checkpoints of an accumulator at every power of two;
+#   deep : one closure called three times with recursion depth n, 2, n/2 + 1 (non-tail recursion, one early exit per level);
+#   multi: THREE closures alive at once, each over captured variables of its own (nothing shared), three different exit forms,
+#          called round-robin n times in total (the state a leak could accumulate in is per thread, not per closure);
+# against the hand-written explicit recursion written with the same body. Exit forms of the body:
+#   ret  explicit `return v;` in the base case and after the first recursive call;      tail  no early exit (control);
+#   opt  `?` on an `Option` (return type `Option<i64>`), in the base case and data-dependent after a recursive call;
+#   res  the same with `Result<i64, i64>`;
+#   brk  `break 'fin v` out of a labelled block, also from inside a nested `loop`;       lop  `break v` / `continue` in a `loop`;
+#   unw  unwinding: the base case panics (`panic_any`) for a quarter of the inputs, the caller catches it and keeps using the closure.
+SOAK_KINDS = ["many", "deep", "multi"]
+SOAK_FORMS = ["ret", "opt", "res", "brk", "lop", "tail", "unw"]
+_SOAK_RET = {"opt": "Option<i64>", "res": "Result<i64, i64>"}
+_SOAK_ROT = {True: ["ret", "opt", "res", "brk", "lop", "tail"], False: ["ret", "brk", "lop", "tail"]}
+SOAK_I64_FORMS = ("ret", "brk", "lop", "tail")        # same VALUE semantics: the Lean semantic model is run on these (driver line `hist`)
+SOAK_LEAN_N = 64                                      # length of the prefix of a `many` history that the Lean model is run on
+
+
+def soak_ret_ty(sh, form=None):
+    form = form or sh.soak[1]
+    return _SOAK_RET.get(form, "i64") if sh.ret else None
+
+
+def soak_forms(sh):
+    """exit forms of the closures of an instance: one, or (multi) three different ones starting at the instance's form"""
+    kind, form, _ = sh.soak
+    if kind != "multi":
+        return [form]
+    rot = _SOAK_ROT[bool(sh.ret)]
+    k = rot.index(form)
+    return [rot[(k + j) % len(rot)] for j in range(3)]
+
+
+def soak_body(sh, form, call, cp="c"):
+    """Body of the closure (all values i64): cheap, recursion depth = a0 for a0 > 3 (one call per level), <= 4 activations below."""
+    n = sh.nargs
+    last = f"a{n - 1}"
+    muts, shared = sh.muts(), sh.shared()
+    L = [f"tr(a0.wrapping_mul(5) ^ {last});"]
+    L.append("let sh: i64 = 1i64" + "".join(f".wrapping_add((*{cp}{i}).wrapping_mul({2 * i + 3}))" for i in shared) + ";")
+    for i in muts:
+        L.append(f"*{cp}{i} = {cp}{i}.wrapping_mul(31).wrapping_add(a0 ^ sh).wrapping_add({i + 1});")
+    L.append("let mu: i64 = 0i64" + "".join(f".wrapping_add(*{cp}{i})" for i in muts) + ";")
+    rec1 = call(["a0 - 1"] + [f"a{k}.wrapping_add({k})" for k in range(1, n)])
+    rec2 = call(["a0 - 2"] + [f"a{k}.wrapping_mul(3) ^ {k}" for k in range(1, n)])
+    B = f"sh.wrapping_add({last}).wrapping_add(mu)"
+    lin = "a0 > 3 || a0 & 1 == 1"
+    boom = f"if (sh ^ {last}) & 3 == 0 {{ std::panic::panic_any({B}); }}"
+
+    def after(v):
+        return " ".join(f"*{cp}{i} = {cp}{i}.wrapping_mul(31).wrapping_add({v}).wrapping_add({10 + i});" for i in muts)
+
+    if not sh.ret:
+        if form in ("opt", "res"):
+            raise ValueError("exit forms opt/res need a return type")
+        b0, b1, b2 = "tr(-1);", f"{rec1}; {after('a0')}", f"{rec1}; {after('a0 + 1')} {rec2};"
+        if form == "ret":
+            L += [f"if a0 <= 0 {{ {b0} return; }}", f"if {lin} {{ {b1} return; }}", b2]
+        elif form == "tail":
+            L += [f"if a0 <= 0 {{ {b0} }} else if {lin} {{ {b1} }} else {{ {b2} }}"]
+        elif form == "unw":
+            L += [f"if a0 <= 0 {{ {boom} {b0} }} else if {lin} {{ {b1} }} else {{ {b2} }}"]
+        elif form == "brk":
+            L += ["'fin: {", f"    if a0 <= 0 {{ {b0} break 'fin; }}", f"    if {lin} {{ {b1} loop {{ break 'fin; }} }}", "    " + b2, "}"]
+        elif form == "lop":
+            L += ["let mut pass = 0;", "loop {", "    pass += 1;", "    if pass == 1 { continue; }", f"    if a0 <= 0 {{ {b0} break; }}",
+                  f"    if {lin} {{ {b1} break; }}", "    " + b2, "    break;", "}"]
+        else:
+            raise ValueError(form)
+        return L
+    two = f"let x = {rec1}; let y = {rec2}; {after('(x ^ y)')}"
+    v1, v2 = "x.wrapping_add(1)", "x.wrapping_mul(7).wrapping_add(y)"
+    if form == "ret":
+        L += [f"if a0 <= 0 {{ return {B}; }}", f"if {lin} {{ let x = {rec1}; {after('x')} return {v1}; }}", two, v2]
+    elif form == "tail":
+        L += [f"if a0 <= 0 {{ {B} }} else if {lin} {{ let x = {rec1}; {after('x')} {v1} }} else {{ {two} {v2} }}"]
+    elif form == "unw":
+        L += [f"if a0 <= 0 {{ {boom} {B} }} else if {lin} {{ let x = {rec1}; {after('x')} {v1} }} else {{ {two} {v2} }}"]
+    elif form == "brk":
+        L += ["let r: i64 = 'fin: {", f"    if a0 <= 0 {{ break 'fin {B}; }}",
+              f"    if {lin} {{ let x = {rec1}; {after('x')} loop {{ break 'fin {v1}; }} }}", "    " + two, "    " + v2, "};", "r"]
+    elif form == "lop":
+        L += ["let mut pass = 0;", "let r: i64 = loop {", "    pass += 1;", "    if pass == 1 { continue; }", f"    if a0 <= 0 {{ break {B}; }}",
+              f"    if {lin} {{ let x = {rec1}; {after('x')} break {v1}; }}", "    " + two, f"    break {v2};", "};", "r"]
+    elif form == "opt":
+        L += ["let q: i64 = pos(a0)?;",
+              f"if {lin} {{ let x = {rec1}.unwrap_or({B}); {after('x')} let z = pos(x & 3)?; Some(x.wrapping_add(z)) }}",
+              f"else {{ let x = {rec1}.unwrap_or({B}); let y = {rec2}.unwrap_or(q); {after('(x ^ y)')} Some({v2}) }}"]
+    elif form == "res":
+        L += ["let q: i64 = posr(a0)?;",
+              f"if {lin} {{ let x = {rec1}.unwrap_or_else(|e| {B}.wrapping_add(e)); {after('x')} let z = posr(x & 3)?; Ok(x.wrapping_add(z)) }}",
+              f"else {{ let x = {rec1}.unwrap_or_else(|e| {B}.wrapping_add(e)); let y = {rec2}.unwrap_or(q); {after('(x ^ y)')} Ok({v2}) }}"]
+    else:
+        raise ValueError(form)
+    return L
+
+
+def soak_args(nargs, e="j"):
+    """actual arguments of outer call number `e` (an i64 expression): a0 in 0..3, the others small and of both signs"""
+    return [f"{e} & 3", f"({e} % 7) - 3", f"({e} % 5) * 2 - 4", f"({e} & 15) - 8"][:nargs]
+
+
+def _soak_val(sh, form, r):
+    if not sh.ret:
+        return "0"
+    return {"opt": f"{r}.unwrap_or(-7)", "res": f"{r}.unwrap_or_else(|e| e ^ 85)"}.get(form, r)
+
+
+def gen_soak_pair(sh, seed=1):
+    """Source text of g_<sid>_4 and e_<sid>_4 for a long-running instance."""
+    kind, form0, n = sh.soak
+    if kind not in SOAK_KINDS or form0 not in SOAK_FORMS or sh.hyg or sh.nest is not None or sh.live2 is not None or sh.env is not None:
+        raise ValueError("bad long-running instance: " + sh.case(SOAK_T, seed))
+    forms = soak_forms(sh)
+    nl = len(forms)
+    caps = list(enumerate(sh.caps))
+    has_mut = bool(sh.muts())
+    prefixes = ["c", "d", "e"][:nl]
+    names = ([sh.nm] if nl == 1 else [sh.nm, sh.nm, "gq"])          # two of the three closures use the SAME recursion name
+    enames = ["go"] if nl == 1 else ["goa", "gob", "goc"]
+    args_decl = ", ".join(f"a{k}: i64" for k in range(sh.nargs))
+    decl, final = [], []
+    for j, cp in enumerate(prefixes):
+        for i, m in caps:
+            decl.append(f"        let {'mut ' if m else ''}{cp}{i}: i64 = {int(cap_init(0, i)) + 1000 * j};")
+            final.append(f'        out += &format!("{cp}{i}={{:?}};", {cp}{i});')
+
+    def driver(fn_call):
+        """fn_call(closure number, copy?, actual arguments) -> expression"""
+        L = []
+
+        def one(j, copy, actual):
+            c = fn_call(j, copy, actual)
+            if forms[j] == "unw":        # the caller catches the unwinding and goes on using the closure
+                ok = _soak_val(sh, forms[j], "v") if sh.ret else "{ let _u: () = v; 0 }"
+                return (f"match std::panic::catch_unwind(std::panic::AssertUnwindSafe(|| {c})) "
+                        f"{{ Ok(v) => {ok}, Err(p) => p.downcast_ref::<i64>().copied().unwrap_or(-99) ^ 1 }}")
+            return _soak_val(sh, forms[j], c) if sh.ret else f"{{ {c}; 0 }}"
+
+        if kind == "deep":
+            for ci, d in enumerate([n, 2, n // 2 + 1]):
+                L.append(f"PROG.store({ci}, Ordering::Relaxed);")
+                L.append(f"let v: i64 = {one(0, ci == 1, ([str(d), '1', '-2', '3'])[:sh.nargs])};")
+                L.append('out += &format!("{:?};", v);')
+            return L
+        L += ["let mut acc: i64 = 0;", "let mut ck = String::new();", "let mut next: u64 = 1;", "let mut i: u64 = 0;", f"while i < {n} {{",
+              "    PROG.store(i, Ordering::Relaxed);", "    let j = i as i64;"]
+        if nl == 1:
+            if has_mut:
+                L.append(f"    let v: i64 = {one(0, False, soak_args(sh.nargs))};")
+            else:
+                L.append(f"    let v: i64 = if i & 1 == 0 {{ {one(0, False, soak_args(sh.nargs))} }} else {{ {one(0, True, soak_args(sh.nargs))} }};")
+        else:
+            L.append("    let v: i64 = match i % 3 {")
+            for j in range(3):
+                L.append(f"        {j if j < 2 else '_'} => {one(j, False, soak_args(sh.nargs, '(j / 3)'))},")
+            L.append("    };")
+        L += ["    acc = acc.wrapping_mul(1000003).wrapping_add(v);", "    i += 1;",
+              '    if i == next { ck += &format!("{}:{};", next, acc); next *= 2; }', "}",
+              "out += &ck;", 'out += &format!("acc={};", acc);']
+        return L
+
+    head = lambda k: [f"pub fn {k}_{sh.sid}_{SOAK_T}() -> String {{", "    on_big_stack(|| {", "        let mut out = String::new();",   # noqa: E731
+                      "        tr_reset();"] + decl
+    tail = ['        out += &format!("t={}", tr_get());', "        out", "    })", "}"]
+    # ---- generated version
+    g = head("g") + ["        {"]
+    for j, cp in enumerate(prefixes):
+        cap_list = ", ".join(f"{cp}{i}: &{'mut ' if m else ''}i64" for i, m in caps)
+        ret = f" -> {soak_ret_ty(sh, forms[j])}" if sh.ret else ""
+        nm = names[j]
+        g_call = lambda ex, nm=nm: f"{nm}!(" + ", ".join(ex) + ("," if sh.tc else "") + ")"   # noqa: E731
+        g.append(f"            let {'mut ' if has_mut else ''}f{j} = rec_lambda!({nm}, |{cap_list}| {{")
+        g.append(f"                |{args_decl}|{ret} {{")
+        g += ["                    " + x for x in soak_body(sh, forms[j], g_call, cp)]
+        g += ["                }", "            });"]
+        if not has_mut:
+            g.append(f"            let f{j}c = f{j};")
+    g += ["            " + x for x in driver(lambda j, copy, actual: (f"(&f{j}c)" if copy and not has_mut else f"(&mut f{j})" if copy else f"f{j}")
+                                         + "(" + ", ".join(actual) + ")")]
+    g += ["        }"] + final + tail
+    # ---- explicit version: captures passed in DECLARED order
+    e = head("e")
+    for j, cp in enumerate(prefixes):
+        params = ", ".join([f"a{k}: i64" for k in range(sh.nargs)] + [f"{cp}{i}: &{'mut ' if m else ''}i64" for i, m in caps])
+        ret = f" -> {soak_ret_ty(sh, forms[j])}" if sh.ret else ""
+        en = enames[j]
+        e_call = lambda ex, en=en, cp=cp: f"{en}(" + ", ".join(list(ex) + [f"{cp}{i}" for i, _ in caps]) + ")"   # noqa: E731
+        e.append(f"        fn {en}({params}){ret} {{")
+        e += ["            " + x for x in soak_body(sh, forms[j], e_call, cp)]
+        e.append("        }")
+    e.append("        {")
+    e += ["            " + x for x in driver(lambda j, copy, actual: f"{enames[j]}(" + ", ".join(
+        list(actual) + [f"&{'mut ' if m else ''}{prefixes[j]}{i}" for i, m in caps]) + ")")]
+    e += ["        }"] + final + tail
+    return "\n".join(g), "\n".join(e)
+
+
+def soak_instances(first_sid, tier):
+    """[(Shape, SOAK_T)]: the long-running instances of a tier; shapes (captures, arguments, return type, call syntax) cycle."""
+    thorough = tier == "thorough"
+    n_many = (1 << 24) if thorough else (1 << 21) + (1 << 18)
+    n_unw = 3400000 if thorough else 2000      # a panic costs ~17 us; 3.4M calls unwind through > 2^20 activations
+    n_deep = 100000
+    pats = [(), (True,), (False, True), (True, False), (False,), (True, True), (False, False, True), (True, False, True, False)]
+    out = []
+    k = [0]
+
+    def add(kind, form, n, ret=None):
+        i = k[0]
+        if ret is None:
+            ret = True if form in ("opt", "res") else i % 3 != 2
+        out.append((Shape(pats[i % len(pats)], 1 + (i * 3 + 1) % 4, ret, i % 2 == 0, first_sid + i, soak=(kind, form, n)), SOAK_T))
+        k[0] += 1
+
+    for form in SOAK_FORMS:
+        add("many", form, n_unw if form == "unw" else n_many)
+    add("many", "ret", n_many, ret=False)                     # `return;` in a closure without return type
+    for form in SOAK_FORMS:
+        add("deep", form, n_deep)
+    for form in ("ret", "brk"):
+        add("multi", form, n_many)
+    add("multi", "ret", n_many, ret=False)
+    if thorough:
+        for form in ("brk", "lop", "tail"):
+            add("many", form, n_many, ret=False)
+        for form in ("ret", "tail"):                          # deeper than 2^20 nested activations (1 GiB stack)
+            add("deep", form, (1 << 20) + (1 << 17))
+        for form in ("opt", "lop"):
+            add("multi", form, n_many)
+    return out
+
+
 PRELUDE = """#![allow(unused, unused_mut, unused_parens, non_snake_case, non_camel_case_types, non_upper_case_globals, clippy::all)]
 // GENERATED by /verif/tools/c20_gen.py — do not edit.
 use rlib_lambda::rec_lambda;
@@ -690,6 +950,23 @@ mod md { pub fn idv(x: i64) -> i64 { x ^ 5 } }
 const LIM: i64 = 3;
 static STAT: i64 = 2;
 struct Wrap(i64);
+// used by the long-running instances (tools/c20_gen.py gen_soak_pair)
+use std::sync::atomic::{AtomicU64, Ordering};
+static PROG: AtomicU64 = AtomicU64::new(0);
+fn pos(x: i64) -> Option<i64> { if x > 0 { Some(x) } else { None } }
+fn posr(x: i64) -> Result<i64, i64> { if x > 0 { Ok(x) } else { Err(x - 1) } }
+/// runs `f` on a fresh thread with a 1 GiB stack; a panic that escapes is reported with the number of the outer call it happened in
+fn on_big_stack(f: impl FnOnce() -> String + Send + 'static) -> String {
+    PROG.store(0, Ordering::Relaxed);
+    match std::thread::Builder::new().stack_size(1 << 30).spawn(f).expect("spawn").join() {
+        Ok(s) => s,
+        Err(p) => {
+            let m = if let Some(s) = p.downcast_ref::<String>() { s.clone() } else if let Some(s) = p.downcast_ref::<&str>() { s.to_string() }
+                    else { "(payload that is not a string)".to_string() };
+            format!("panic at outer call #{}: {}", PROG.load(Ordering::Relaxed), m)
+        }
+    }
+}
 """
 
 
@@ -708,14 +985,15 @@ mod std {} mod core {} mod alloc {} mod rlib_lambda {}
 
 
 RUNNER_MAIN_HEAD = """// GENERATED by /verif/tools/c20_gen.py
+// usage: runner [from [to]] - runs the instances number from <= k < to;
 // prints, per instance k:  `B e k sid t` / `E sid t <result>` / `B g k sid t` / `G sid t <result>`;
 // the begin markers identify the instance that took the process down (stack overflow cannot be caught).
 fn catch(f: impl FnOnce() -> String + std::panic::UnwindSafe) -> String {
     std::panic::catch_unwind(f).unwrap_or_else(|_| "panic".to_string())
 }
-fn one(k: &mut usize, from: usize, id: (u32, u32), e: impl FnOnce() -> String + std::panic::UnwindSafe,
+fn one(k: &mut usize, from: usize, to: usize, id: (u32, u32), e: impl FnOnce() -> String + std::panic::UnwindSafe,
        g: impl FnOnce() -> String + std::panic::UnwindSafe) {
-    if *k >= from {
+    if *k >= from && *k < to {
         println!("B e {} {} {}", *k, id.0, id.1);
         println!("E {} {} {}", id.0, id.1, catch(e));
         println!("B g {} {} {}", *k, id.0, id.1);
@@ -726,6 +1004,7 @@ fn one(k: &mut usize, from: usize, id: (u32, u32), e: impl FnOnce() -> String + 
 fn main() {
     std::panic::set_hook(Box::new(|_| {}));
     let from: usize = std::env::args().nth(1).and_then(|s| s.parse().ok()).unwrap_or(0);
+    let to: usize = std::env::args().nth(2).and_then(|s| s.parse().ok()).unwrap_or(usize::MAX);
     let mut k = 0usize;
 """
 
@@ -746,7 +1025,9 @@ def write_workspace(root, repo, instances, nparts, seed=1):
     members = [f"part{p}" for p in range(nparts)] + ["runner"]
     write_if_changed(os.path.join(root, "Cargo.toml"),
                      "[workspace]\nresolver = \"2\"\nmembers = [" + ", ".join(f'"{m}"' for m in members) + "]\n\n"
-                     "[profile.dev]\ndebug = false\nincremental = false\nopt-level = 0\noverflow-checks = true\n")
+                     "[profile.dev]\ndebug = false\nincremental = false\nopt-level = 0\noverflow-checks = true\n\n"
+                     # `--release`: cargo's release profile as it is (debug-assertions and overflow-checks off, opt-level 3)
+                     "[profile.release]\ndebug = false\nincremental = false\n")
     write_if_changed(os.path.join(root, ".cargo", "config.toml"), "[net]\noffline = true\n")
     linemaps = {}
     for p in range(nparts):
@@ -781,7 +1062,7 @@ def write_workspace(root, repo, instances, nparts, seed=1):
                      "[package]\nname = \"runner\"\nversion = \"0.0.0\"\nedition = \"2021\"\n\n[dependencies]\n" + deps)
     main = RUNNER_MAIN_HEAD
     for p in range(nparts):
-        main += f"    for i in 0..part{p}::COUNT {{ one(&mut k, from, part{p}::id(i), || part{p}::run_e(i), || part{p}::run_g(i)); }}\n"
+        main += f"    for i in 0..part{p}::COUNT {{ one(&mut k, from, to, part{p}::id(i), || part{p}::run_e(i), || part{p}::run_g(i)); }}\n"
     main += "}\n"
     write_if_changed(os.path.join(root, "runner", "src", "main.rs"), main)
     return linemaps
@@ -798,11 +1079,11 @@ def run(cmd, cwd, timeout=3600):
     return subprocess.run(cmd, cwd=cwd, env=env, timeout=timeout, stdout=subprocess.PIPE, stderr=subprocess.PIPE, text=True)
 
 
-def cargo_build(root, jobs=4):
+def cargo_build(root, jobs=4, release=False):
     """Returns (ok, errors) where errors = [(part index or None, line or None, rendered message, package name,
     touches_lambda)]; touches_lambda = the error is reported while compiling rlib_lambda itself or one of its spans
     (incl. the macro backtrace) lies in the rlib/lambda sources."""
-    r = run(["cargo", "build", "--offline", "-j", str(jobs), "--message-format=json"], root)
+    r = run(["cargo", "build", "--offline", "-j", str(jobs), "--message-format=json"] + (["--release"] if release else []), root)
     errs = []
     for line in r.stdout.split("\n"):
         if not line.startswith("{"):
@@ -849,16 +1130,16 @@ def locate(linemaps, part, line):
     return None
 
 
-def run_runner(root, max_crashes=12):
-    """Runs the generated binary; returns (problem or None, results) with results[(sid, t)] = {"G": …, "E": …}.
-    An instance that takes the process down (stack overflow, abort, timeout) gets the result `crash(...)` and
-    the run is resumed after it."""
-    exe = os.path.join(root, "target", "debug", "runner")
+def run_runner(root, max_crashes=12, release=False, lo=0, hi=None, timeout=900):
+    """Runs the generated binary (instances number lo <= k < hi); returns (problem or None, results) with
+    results[(sid, t)] = {"G": …, "E": …}. An instance that takes the process down (stack overflow, abort, timeout) gets the
+    result `crash(...)` and the run is resumed after it."""
+    exe = os.path.join(root, "target", "release" if release else "debug", "runner")
     res = {}
-    start, crashes = 0, 0
+    start, crashes = lo, 0
     while True:
         try:
-            r = run([exe, str(start)], root, timeout=900)
+            r = run([exe, str(start)] + ([str(hi)] if hi is not None else []), root, timeout=timeout)
             rc, out, err = r.returncode, r.stdout, r.stderr
         except subprocess.TimeoutExpired as e:
             rc, out, err = -999, (e.stdout or b"").decode() if isinstance(e.stdout, bytes) else (e.stdout or ""), "timeout"
@@ -1027,21 +1308,22 @@ def replay(case, repo, keep=False, out=sys.stdout):
     import tempfile
     import shutil
     sh, t, seed = parse_case(case)
-    ts = [t] if t is not None else list(range(TEMPLATES))
+    release = "profile=release" in case.split()
+    ts = [t] if t is not None else ([SOAK_T] if sh.soak is not None else list(range(TEMPLATES)))
     root = tempfile.mkdtemp(prefix="c20-replay-")
     try:
         lm = write_workspace(root, repo, [(sh, x) for x in ts], 1, seed)
-        ok, errs = cargo_build(root)
-        print(f"shape: {case}\ncrate: {root}\ncompiles: {ok}", file=out)
+        ok, errs = cargo_build(root, release=release)
+        print(f"shape: {case}\ncrate: {root}\nprofile: {'release' if release else 'debug'}\ncompiles: {ok}", file=out)
         for part, line, msg, _pkg, _il in errs:
             print(f"error at {locate(lm, part, line)}:\n{msg}", file=out)
         if ok:
-            problem, res = run_runner(root)
+            problem, res = run_runner(root, release=release)
             if problem:
                 print("runner: " + problem, file=out)
             for (sid, x), d in sorted(res.items()):
                 print(f"body={x} generated: {d.get('G')}\nbody={x} explicit : {d.get('E')}\nbody={x} equal: {d.get('G') == d.get('E')}", file=out)
-        rc, text, err = expanded_source(root, 0)
+        rc, text, err = expanded_source(root, 0) if sh.soak is None else (1, "", "")
         if rc == 0:
             for x in ts:
                 print(f"body={x} expansion wiring: {wiring_of_expansion(text, sh.sid, x)}", file=out)
